@@ -258,6 +258,7 @@ func (eng *Engine) load(mirror string, patterns []string) error {
 			cls = append(cls, c.Modifies...)
 			cls = append(cls, c.Preserves...)
 			cls = append(cls, c.AllocExpr)
+			cls = append(cls, c.Def)
 			for _, cs := range c.Calls {
 				cls = append(cls, cs.Clause)
 			}
